@@ -58,7 +58,7 @@ def check_transparent(ob, r, leaves, name='transparent'):
         ob.ok(name + '.no_graph_cut', 'transparent')
 
 
-OPS = ['full', 'add', 'sub', 'mul', 'neg', 'scalar_mul', 'scalar_add', 'scalar_rsub', 'scalar_div', 'tensor_scalar_mul', 'tensor_scalar_add', 'kron', 'matvec', 'vecmat', 'matmat',
+OPS = ['full', 'add', 'sub', 'mul', 'neg', 'scalar_mul', 'scalar_add', 'scalar_rsub', 'scalar_div', 'tensor_scalar_mul', 'tensor_scalar_add', 'tensor_scalar_div', 'tensor_scalar_sub', 'tensor_scalar_rsub', 'kron', 'matvec', 'vecmat', 'matmat',
        'matdense', 'sum_all', 'sum_partial', 'dot', 'dot_axis', 'norm', 'norm_sq', 'bilinear', 'getitem', 'apply_mask', 'cat', 'pad', 'diag', 'mprod', 'transpose', 'nn_forward']
 
 
@@ -105,14 +105,17 @@ def transparent(ob, op, d, who):
              'apply_mask': lambda: call('apply_mask', _mask(ex, x, d)),
              'pad': lambda: ex.call(E('pad'), [x, ((1, 1),) * d, 2.0]), 'diag': lambda: ex.call(E('diag'), [x]),
              'mprod': lambda: call('mprod', T.atom_tensor('F', [z3.Int('L'), x.N_[0]]), 0)}[op]()
-    elif op in ('add', 'sub', 'mul', 'dot', 'cat', 'tensor_scalar_mul', 'tensor_scalar_add'):
+    elif op in ('add', 'sub', 'mul', 'dot', 'cat', 'tensor_scalar_mul', 'tensor_scalar_add', 'tensor_scalar_div', 'tensor_scalar_sub', 'tensor_scalar_rsub'):
         x = mk('x')
         y = mk('y', N=x.N_)
         tr(x, y)
-        if op in ('tensor_scalar_mul', 'tensor_scalar_add'):
+        if op.startswith('tensor_scalar_'):
             # the scalar is itself a tensor computed from tracked cores: d(scalar)/d(core) must flow through
             s = ex.call(E('dot'), [x, y])
-            r = ex.binop('Mult' if op == 'tensor_scalar_mul' else 'Add', x, s)
+            if op == 'tensor_scalar_rsub':
+                r = ex.binop('Sub', s, x)
+            else:
+                r = ex.binop({'tensor_scalar_mul': 'Mult', 'tensor_scalar_add': 'Add', 'tensor_scalar_div': 'Div', 'tensor_scalar_sub': 'Sub'}[op], x, s)
         else:
             r = {'add': lambda: ex.binop('Add', x, y), 'sub': lambda: ex.binop('Sub', x, y), 'mul': lambda: ex.binop('Mult', x, y),
                  'dot': lambda: ex.call(E('dot'), [x, y]), 'cat': lambda: ex.call(E('cat'), [(x, y), 0])}[op]()
